@@ -179,11 +179,16 @@ def maps_case(ctx, case):
         if p['patch'] is None:
             pkt.width, pkt.height, pkt.offset, pkt.pixels = 0, 0, None, None
         else:
-            w, h, ox, oz, seed = p['patch']
-            px = bytes((seed + i * 7) % 256 for i in range(w * h))
+            w, h, ox, oz, seed = p['patch'][:5]
+            # the pixel array carries its own length: the last row may be
+            # partly filled ('short' pixels missing); pixel i still lands at
+            # offset + (i mod width, i div width)
+            short = p['patch'][5] % w if len(p['patch']) > 5 else 0
+            npx = w * h - short
+            px = bytes((seed + i * 7) % 256 for i in range(npx))
             pkt.width, pkt.height, pkt.offset = w, h, (ox, oz)
             pkt.pixels = px
-            for i in range(w * h):
+            for i in range(npx):
                 x, z = ox + i % w, oz + i // w
                 if (x, z) in m['touched']:
                     overlaps += 1
@@ -213,6 +218,11 @@ def maps_case(ctx, case):
                           gi), (mid, mm['scale'], mm['tracking'],
                                 mm['locked'], mm['icons']))
                 return
+            if len(g.pixels) != 128 * 128:
+                ctx.fail('maps', 'T2-pixels',
+                         {'packets': case['packets'][:step + 1]},
+                         '%d pixels in the map' % len(g.pixels), 128 * 128)
+                return
             if bytes(g.pixels) != bytes(mm['pixels']):
                 k = next(i for i in range(128 * 128)
                          if g.pixels[i] != mm['pixels'][i])
@@ -234,7 +244,8 @@ def maps_strategy(maxlen):
     def patch(t):
         w, h = t
         return st.tuples(st.just(w), st.just(h), st.integers(0, 128 - w),
-                         st.integers(0, 128 - h), st.integers(0, 255))
+                         st.integers(0, 128 - h), st.integers(0, 255),
+                         st.sampled_from([0, 0, 0, 1, 2, 127]))
     dims = st.one_of(st.tuples(st.integers(1, 128), st.integers(1, 128)),
                      st.tuples(st.integers(1, 6), st.integers(1, 6)),
                      st.sampled_from([(128, 128), (1, 128), (128, 1),
